@@ -416,7 +416,7 @@ func (w *ledgerWorld) amountRaw(near *big.Int) sdkmath.Int {
 	}
 }
 
-func errClass(err error) string {
+func ledgerErrClass(err error) string {
 	if err == nil {
 		return "ok"
 	}
@@ -604,13 +604,13 @@ func (w *ledgerWorld) step(prev *ledgerSnap, kinds map[string]int) *ledgerSnap {
 				// a panic inside a message is recovered by baseapp: the tx is rejected and its
 				// cache context dropped. The model does not cover the SDK's 256/315-bit overflow
 				// guards, so such an op is shown to the model as a no-op (state must be unchanged).
-				w.env.Note("tx-panic:" + name + ":" + errClass(fmt.Errorf("%s", strings.TrimPrefix(err.Error(), "panic: "))))
+				w.env.Note("tx-panic:" + name + ":" + ledgerErrClass(fmt.Errorf("%s", strings.TrimPrefix(err.Error(), "panic: "))))
 				opLine = "ledger.dump"
 				res = "ok"
 			}
 		}
 		w.emit(opLine, res+" "+after.dump())
-		w.env.Outcome(name + "." + errClass(err))
+		w.env.Outcome(name + "." + ledgerErrClass(err))
 		kinds[name+"."+res]++
 		if err != nil {
 			expect = nil
@@ -650,12 +650,11 @@ func (w *ledgerWorld) step(prev *ledgerSnap, kinds map[string]int) *ledgerSnap {
 		finish("delegate", fmt.Sprintf("ledger.delegate %s %s %s %s", sid, asset, op, x), err, nil)
 	case 3, 4: // undelegate: prefer an existing delegation
 		var cands []string
-		for k, d := range prev.deleg {
-			if d.share.Sign() > 0 && (r.Chance(1, 2) || strings.HasPrefix(k, sid+"/")) {
+		for _, k := range sortedKeys(prev.deleg) { // sorted: the RNG is consumed inside the loop
+			if d := prev.deleg[k]; d.share.Sign() > 0 && (r.Chance(1, 2) || strings.HasPrefix(k, sid+"/")) {
 				cands = append(cands, k)
 			}
 		}
-		sort.Strings(cands)
 		var near *big.Int
 		if len(cands) > 0 && r.Chance(9, 10) {
 			f := strings.Split(cands[r.Intn(len(cands))], "/")
@@ -861,7 +860,7 @@ func (w *ledgerWorld) slash(prev *ledgerSnap, op sdk.AccAddress) *ledgerSnap {
 		return again
 	}
 	after := w.snapAndCheck()
-	w.env.Outcome("slash." + errClass(err))
+	w.env.Outcome("slash." + ledgerErrClass(err))
 	if err != nil {
 		if strings.HasPrefix(err.Error(), "panic:") {
 			w.env.Violate("C04.slash", "slash-panic", "Slash panicked: "+err.Error(), w.hist)
